@@ -45,23 +45,23 @@ func normalizePath(path string) string {
 }
 
 func vertexIdxStruct(v *gdbi.Vertex) map[string]interface{} {
-	k := map[string]interface{}{
-		"v": map[string]interface{}{
-			"label": v.Label,
-			v.Label: v.Data,
-		},
-	}
-	return k
+	return map[string]interface{}{"v": labelIdxStruct(v.Label, v.Data)}
 }
 
 func edgeIdxStruct(e *gdbi.Edge) map[string]interface{} {
-	k := map[string]interface{}{
-		"e": map[string]interface{}{
-			"label": e.Label,
-			e.Label: e.Data,
-		},
+	return map[string]interface{}{"e": labelIdxStruct(e.Label, e.Data)}
+}
+
+// labelIdxStruct builds the index document of an element: its label under the key
+// "label" (the term of the label index) and its data under the label itself (for
+// the fields indexed per label). An element whose label is "label" keeps the label
+// term: its data is not added under the same key.
+func labelIdxStruct(label string, data map[string]interface{}) map[string]interface{} {
+	doc := map[string]interface{}{"label": label}
+	if label != "label" {
+		doc[label] = data
 	}
-	return k
+	return doc
 }
 
 //AddVertexIndex add index to vertices
